@@ -92,3 +92,30 @@ Proof.
     + split; [intros _; right; assumption | reflexivity].
     + split; [discriminate | intros [->|Hk]; [cbn in E; lia | lia]].
 Qed.
+
+(** "assigns every training vector to its nearest centroid whenever the run converged": a converged run
+    returns exactly the first-arg-min assignment with respect to the centroids it returns; a run that
+    did not converge still returns an assignment computed against the centroids of its last iteration
+    (not necessarily the returned ones) *)
+Lemma list_eqb_true_eq : forall a b, list_eqb a b = true -> a = b.
+Proof.
+  induction a as [|x a IH]; destruct b as [|y b]; cbn [list_eqb]; intros H; try reflexivity; try discriminate.
+  apply andb_true_iff in H. destruct H as [H1 H2]. apply Z.eqb_eq in H1. subst y. f_equal. apply IH, H2.
+Qed.
+
+Lemma km_loop_converged : forall fuel m dimn vs cents mapping cents' mapping',
+  km_loop fuel m dimn vs cents mapping = (cents', mapping', true) ->
+  mapping' = map (fun v => nearest m v cents') vs.
+Proof.
+  induction fuel as [|f IH]; intros m dimn vs cents mapping cents' mapping' H; cbn [km_loop] in H; [inversion H|].
+  destruct (list_eqb mapping (map (fun v => nearest m v cents) vs)) eqn:E.
+  - inversion H; subst. apply list_eqb_true_eq, E.
+  - eapply IH, H.
+Qed.
+
+Theorem kmeans_converged_is_nearest vs k m it cents mapping :
+  kmeans vs k m it = Some (cents, mapping, true) -> mapping = map (fun v => nearest m v cents) vs.
+Proof.
+  unfold kmeans. destruct ((Z.of_nat (length vs) =? 0) || (k <=? 0)); [discriminate|].
+  intros H. inversion H as [H1]. eapply km_loop_converged, H1.
+Qed.
